@@ -429,7 +429,13 @@ pub fn run_sweep(sweep: &dyn Sweep, progress_file: &str) -> Acc {
                     slot.seq.store(0, Ordering::Relaxed);
                     slot.busy.store(true, Ordering::Relaxed);
                     let mut ctx = Ctx::new(&sweep.name(), shard, Mode::Normal, Some(slot));
-                    sweep.run_shard(shard, &mut ctx);
+                    let r = std::panic::catch_unwind(std::panic::AssertUnwindSafe(|| sweep.run_shard(shard, &mut ctx)));
+                    if r.is_err() {
+                        // calls into the implementation are wrapped in `guard`: this is the harness's own fault
+                        let msg = PANIC_MSG.with(|m| m.borrow().clone());
+                        eprintln!("MACHINERY: harness panic in sweep {} shard {}: {}", sweep.name(), shard, msg);
+                        std::process::exit(2);
+                    }
                     slot.busy.store(false, Ordering::Relaxed);
                     total.lock().unwrap().merge(ctx.acc);
                 })
@@ -437,7 +443,11 @@ pub fn run_sweep(sweep: &dyn Sweep, progress_file: &str) -> Acc {
             handles.push(h);
         }
         for h in handles {
-            let _ = h.join();
+            if h.join().is_err() {
+                // a panic outside `guard` is a fault of the harness itself: never a verdict, never silent
+                eprintln!("MACHINERY: a worker thread of sweep {} panicked outside the guarded call into the implementation", name);
+                std::process::exit(2);
+            }
         }
         finished.store(true, Ordering::Relaxed);
     });
